@@ -4,6 +4,7 @@ import Csvq.Model.Group
 import Csvq.Model.FormatFloat
 import Csvq.Model.Aggregate
 import Csvq.Model.AggEval
+import Csvq.Model.KeyOf
 namespace Csvq.Drive
 open Csvq Csvq.Proto
 
@@ -251,6 +252,40 @@ def gagg (strict : Bool) (w cpu : Nat) (sep : Bytes) (calls : List GCall) (rows 
     if gv.isEmpty then "-"
     else String.intercalate "|" ((members.zip gv).map fun mb => one mb.1 mb.2.2)
 
+/-! ### spellings: keys computed from RAW values by the model's own conversions (Model/KeyOf.lean) -/
+
+/-- the key bytes of one value; nothing of the implementation's conversions enters -/
+def spellKeyBytes (strict : Bool) (v : Val) : Bytes :=
+  serKey { itext := decText, ftext := FF.fmtF } (keyOfMode strict v)
+
+def showVals (l : List Val) : String := if l.isEmpty then "-" else String.intercalate "," (l.map showVal)
+
+/-- one key column; rows 0..na-1 are the left operand of a set operator, the rest the right one -/
+def spell (kind : String) (strict : Bool) (cpu na : Nat) (vs : List Val) : String :=
+  let keyed : List (Bytes × Val) := vs.map fun v => (spellKeyBytes strict v, v)
+  let rows : List (Bytes × Nat) := keyed.zipIdx.map fun (kv, i) => (kv.1, i)
+  let a := keyed.take na
+  let b := keyed.drop na
+  match kind with
+  | "group" =>
+    let per := if cpu = 0 then rows.length else (rows.length + cpu - 1) / cpu
+    showBuckets (groupImpl (chunk per rows))
+  | "distinct" => showVals ((keepFirst keyed).map Prod.snd)
+  | "part" =>
+    -- COUNT(*) OVER (PARTITION BY k), per row in row order: the size of the row's bucket
+    if keyed.isEmpty then "-" else
+    String.intercalate "," (keyed.map fun kv => toString (keyed.filter fun x => x.1 == kv.1).length)
+  | "cntd" =>
+    -- COUNT(DISTINCT k): the buckets of the non-NULL values
+    toString (keepFirst (keyed.filter fun kv => match kv.2 with | .null => false | _ => true)).length
+  | "union0" => showVals ((unionImpl false a b).map Prod.snd)
+  | "union1" => showVals ((unionImpl true a b).map Prod.snd)
+  | "except0" => showVals ((exceptImpl false a b).map Prod.snd)
+  | "except1" => showVals ((exceptImpl true a b).map Prod.snd)
+  | "intersect0" => showVals ((intersectImpl false a b).map Prod.snd)
+  | "intersect1" => showVals ((intersectImpl true a b).map Prod.snd)
+  | _ => "bad-op"
+
 /-- an op line may carry a note for the reader of a replay (`q:<hex of the SQL text>`) in front of its arguments -/
 def dropNote (args : List String) : List String :=
   match args with
@@ -267,6 +302,14 @@ def c04core (cmd : String) (args : List String) : String :=
       | some rows => gagg strict w cpu sep calls rows
       | none => bad
     | _, _, _, _, _ => bad
+  | "skey", s :: vals =>
+    match parseBool s, vals.mapM parseVal with
+    | some strict, some vs => hex (intercalateSep (vs.map (spellKeyBytes strict)))
+    | _, _ => bad
+  | "spell", kind :: s :: cpu :: na :: vals =>
+    match parseBool s, cpu.toNat?, na.toNat?, vals.mapM parseVal with
+    | some strict, some cpu, some na, some vs => spell kind strict cpu na vs
+    | _, _, _, _ => bad
   | "key", s :: toks =>
     match parseBool s, toks.mapM parseKTok with
     | some strict, some ks => if ks.all ktokFloatOK then hex (rowKey strict ks) else "float-text-differs"
